@@ -35,10 +35,12 @@ Push(q, x) == Append(q, x)
 QI(i) == QInt(i)
 
 -----------------------------------------------------------------------------
-(* Sma: running sum, evict when len >= N *)
+(* Sma: the sum grows with every value while the window fills; once a value leaves, the window is summed afresh (sma.rs after
+   fix 6e04b1a: a down-dated running sum kept the rounding residue of every value that ever passed through - invisible in this
+   exact arithmetic, so the model-level theorems "machine = definition" are the same for both) *)
 Sma_Init(n) == [q |-> <<>>, sum |-> QZero, p |-> FALSE]
 Sma_Step(n, s, x) ==
-    IF Len(s.q) >= n /\ s.q # <<>> THEN [s EXCEPT !.q = Push(Tail(@), x), !.sum = QNorm(QAdd(QSub(@, Head(s.q)), x))]
+    IF Len(s.q) >= n /\ s.q # <<>> THEN LET q1 == Push(Tail(s.q), x) IN [s EXCEPT !.q = q1, !.sum = QNorm(QSum(q1))]
     ELSE [s EXCEPT !.q = Push(@, x), !.sum = QNorm(QAdd(@, x))]
 Sma_Out(n, s) == IF Len(s.q) < n \/ s.q = <<>> THEN MNone ELSE MQ(QDiv(s.sum, QI(Len(s.q))))
 
